@@ -199,30 +199,43 @@ def is_witness(desc):
     return "VT_WITNESS" in (desc or "")
 
 
+def _leafs(path, v, out):
+    n = v.get("name")
+    if n == "array":
+        for e in v.get("elements", []):
+            _leafs("%s[%s]" % (path, e.get("index")), e.get("value", {}), out)
+    elif n == "struct":
+        for m in v.get("members", []):
+            if "$pad" in m.get("name", ""):
+                continue
+            _leafs("%s.%s" % (path, m.get("name")), m.get("value", {}), out)
+    elif n == "integer":
+        d = v.get("data", "")
+        if d in ("TRUE", "FALSE"):
+            out[path] = 1 if d == "TRUE" else 0
+        else:
+            b = v.get("binary")
+            out[path] = int(b, 2) if b else int(re.sub(r"[uUlL]+$", "", d))
+    elif n == "pointer":
+        out[path] = 0
+
+
 def extract_inputs(trace):
-    """Leaf assignments to the harness input struct `in` (last write wins)."""
+    """Assignments to the harness input struct `in` (whole-struct, sub-aggregate or leaf; last write wins)."""
     vals = {}
     for s in trace or []:
         if s.get("stepType") != "assignment":
             continue
         lhs = s.get("lhs", "")
-        if not (lhs.startswith("in.") or lhs.startswith("in[")):
+        if lhs != "in" and not lhs.startswith("in."):
             continue
         if "$pad" in lhs:
             continue
-        v = s.get("value", {})
-        if v.get("name") not in ("integer", "pointer", "float"):
-            continue
-        path = re.sub(r"\[(\d+)l?\]", r"[\1]", lhs[3:])
-        if v.get("name") == "integer":
-            d = v.get("data", "")
-            if d in ("TRUE", "FALSE"):
-                vals[path] = 1 if d == "TRUE" else 0
-            else:
-                b = v.get("binary")
-                vals[path] = int(b, 2) if b else int(re.sub(r"[uUlL]+$", "", d))
-        elif v.get("name") == "pointer":
-            vals[path] = 0
+        path = re.sub(r"\[(\d+)l?\]", r"[\1]", lhs[2:])
+        tmp = {}
+        _leafs(path, s.get("value", {}), tmp)
+        for k, v in tmp.items():
+            vals[k.lstrip(".")] = v
     return vals
 
 
@@ -328,11 +341,15 @@ def run_query(q):
             st = p.get("status")
             desc = p.get("description", "")
             if is_witness(desc):
+                # every witness of the harness must be reachable
                 if st == "FAILURE":
-                    res["witness_reached"] = True
-                    wit_trace = p.get("trace")
-                elif res["witness_reached"] is None:
+                    if res["witness_reached"] is None:
+                        res["witness_reached"] = True
+                    wit_trace = wit_trace or p.get("trace")
+                    res.setdefault("witnesses", []).append(desc)
+                else:
                     res["witness_reached"] = False
+                    res.setdefault("witnesses_missed", []).append(desc)
                 continue
             if st == "FAILURE":
                 loc = p.get("sourceLocation", {})
@@ -385,7 +402,7 @@ def native_replay(rep, root=None):
             from . import gens
             srcs += gens.run(rep["gen"], root, wd)
         exe = os.path.join(wd, "replay")
-        cmd = ["gcc", "-std=gnu11", "-g", "-O0", "-w", "-fsanitize=address,undefined", "-fno-sanitize-recover=all",
+        cmd = ["gcc", "-std=gnu11", "-g", "-O0", "-w", "-fsanitize=address,undefined", "-fno-sanitize=shift-base", "-fno-sanitize-recover=all",
                "-fno-omit-frame-pointer", "-DVT_REPLAY", "-I", wd, "-o", exe] + \
               [a for a in cc_args(q, root) if a != "-D__NO_CTYPE"] + srcs
         r = run_proc(cmd, 300, 0, wd)
